@@ -574,12 +574,22 @@ pub fn run(ctx: &Ctx) {
             ("a cycle through two vectors in an error message", format!("{}(define a (vector 1 0))\n(define b (vector 2 a))\n(vector-set! a 1 b)\n(car a)\n", head)),
             ("a cycle through two vectors as a wrong argument count", format!("{}(define a (vector 1 0))\n(define b (vector 2 a))\n(vector-set! a 1 b)\n((lambda (x) x) a b)\n", head)),
             ("the same empty vector displayed twice", format!("{}(define e (vector))\n(display (vector 1 e (list e 2)))\n(display e)\n", head)),
+            ("a string left open at the end of the file", format!("{}(display 1)\n(display \"never closed", head)),
+            ("an |identifier left open at the end of the file", format!("{}(display 1)\n(display (quote |never closed", head)),
+            ("a list left open at the end of the file", format!("{}(display 1)\n(display (list 1 2", head)),
+            ("a fault on a line of a library that the program does not have", "(import (scheme base) (long lib))\n(display a)\n".to_string()),
         ];
         for (what, text) in programs {
             let dir = crate::checks::c17::scratch("c07p");
             let _ = std::fs::create_dir_all(&dir);
             let file = dir.join("p.scm");
             std::fs::write(&file, &text).unwrap();
+            // a library next to the program, longer than the program, failing on its last line
+            let _ = std::fs::create_dir_all(dir.join("long"));
+            let _ = std::fs::write(
+                dir.join("long/lib.sld"),
+                "(define-library (long lib)\n  (import (scheme base))\n  (export a)\n  (begin\n    (define b 1)\n    (define c 2)\n    (define d 3)\n    (define a (car b))))\n",
+            );
             let r = crate::checks::c17::run_binary(&[file.to_str().unwrap()], &dir, None);
             let _ = std::fs::remove_dir_all(&dir);
             let mut rep = Report::new(format!("process: {}\n{}", what, text));
